@@ -211,9 +211,13 @@ def build_harness(name, files_dual, files_plain, featuresets, profile='debug'):
         if en in enums:
             raise RuntimeError('duplicate enum name in harness corpus: ' + en)
         enums[en] = (mod, c)
-    disp = []; dispc = []
+    disp = []; dispc = []; dispb = []
     for en, (mod, c) in sorted(enums.items()):
         if c.accepted:
+            if c.utf8:
+                dispb.append('        "%s" => match std::str::from_utf8(input) { Ok(s) => bump_str::<defs::%s::%s>(s, k, n, out), Err(_) => out.push_str("BADUTF8") },' % (en, mod, en))
+            else:
+                dispb.append('        "%s" => bump_bytes::<defs::%s::%s>(input, k, n, out),' % (en, mod, en))
             if c.utf8:
                 dispc.append('        "%s" => match std::str::from_utf8(input) { Ok(s) => count_str::<defs::%s::%s>(s, out), Err(_) => out.push_str("BADUTF8") },' % (en, mod, en))
             else:
@@ -227,7 +231,7 @@ def build_harness(name, files_dual, files_plain, featuresets, profile='debug'):
             disp.append('        "%s" => run_bytes::<defs::%s::%s>(input, partial, trace, out),' % (en, mod, en))
     tmpl = open(os.path.join(VERIF, 'tools', 'harness', 'main.rs.tmpl')).read()
     modtxt = 'mod defs {\n' + ''.join('    pub mod %s;\n' % m for m in mods) + '}\n'
-    main = tmpl.replace('//@MODS@', modtxt).replace('//@DISPATCH@', '\n'.join(disp)).replace('//@DISPATCH_COUNT@', '\n'.join(dispc))
+    main = tmpl.replace('//@MODS@', modtxt).replace('//@DISPATCH@', '\n'.join(disp)).replace('//@DISPATCH_COUNT@', '\n'.join(dispc)).replace('//@DISPATCH_BUMP@', '\n'.join(dispb))
     cargo = '''[package]
 name = "verif-harness"
 version = "0.1.0"
